@@ -15,7 +15,7 @@ from vf.refpeg import Ref, RefFailedSemantics
 
 PROPERTY = 'C06'
 HISTORY_CONFIRM = True   # a failure that needs the process history is confirmed by re-running its shard from the seed
-RULE = ('C01-style generated grammars with rule parameters and @nomemo rules x 5 inputs x a semantics object drawn from {identity, tagging '
+RULE = ('C01-style generated grammars with rule parameters and @nomemo rules (and, in 15 % of the cases, layered left-recursive grammars from vf.lrgen, outcome and AST only) x 5 inputs x a semantics object drawn from {identity, tagging '
         '(wraps the value with rule name and parameters), _default only, mixed named methods + _default, fail-on-value (FailedSemantics when '
         'the AST equals a value taken from the reference trace), raise-on-value with an exception class from {KeyError, IndexError, '
         'ValueError, TypeError("... arguments ..."), AttributeError, RuntimeError, AssertionError, LookupError, custom Exception}}; run on '
@@ -152,7 +152,7 @@ def rule_dicts(rules, ruleinfo):
 _n = [0]
 
 
-def check(rules, ruleinfo, start, text, semd, cache=None, history=None):
+def check(rules, ruleinfo, start, text, semd, cache=None, history=None, lr=False):
     """semd: dict(kind, target, exc, named).  returns (detail|None, info)"""
     import tatsu
     rules = [(n, tup(x)) for n, x in rules]
@@ -193,12 +193,15 @@ def check(rules, ruleinfo, start, text, semd, cache=None, history=None):
         r = ('abort',)
         aborted = True
     info.update(ref=r[0], flags=sorted(ref.flags), fired=aborted or ('failed' in [c[1] for c in ref.calls]), ncalls=len(rlog))
-    if r[0] == 'budget' or set(ref.flags) & ACCEPT_FLAGS:
+    # left-recursive case family (vf.lrgen): the reference grows the seed, outcome and AST are compared, call logs are not
+    # (how often a body is re-evaluated while a seed grows is an implementation matter)
+    rflags = set(ref.flags) - ({'LR'} if lr else set())
+    if r[0] == 'budget' or rflags & ACCEPT_FLAGS:
         return None, info
     if ref.openlist_values:
         info['unjudged'] = True   # known finding F-C01-a changes the ASTs the actions see
         return None, info
-    if ref.flags and semd['kind'] in ('fail_on', 'raise_on'):
+    if rflags and semd['kind'] in ('fail_on', 'raise_on'):
         info['unjudged'] = True   # the predicate looks at AST values; with an unspecified-value flag raised it may fire differently
         return None, info
     rr = ('fail',) if r[0] == 'fail' else ('abort',) if aborted else ('ok', r[1], tu.canon(r[2]))
@@ -258,7 +261,7 @@ def check(rules, ruleinfo, start, text, semd, cache=None, history=None):
                         '(FailedSemantics = that invocation fails, alternatives are tried)', expected=rr, observed=t), info
         if t[0] == 'ok' and t[1] != rr[1]:
             return dict(bucket=f'{side}:length', oracle='consumed length agrees with RefPEG running the same actions', expected=rr, observed=t), info
-        if t[0] == 'ok' and not ref.flags and t[2] != rr[2]:
+        if t[0] == 'ok' and not rflags and t[2] != rr[2]:
             return dict(bucket=f'{side}:ast', oracle='the value an action returns becomes the rule\'s value for its callers', expected=rr, observed=t), info
         if not ref.flags:
             tcount = Counter(c for c in log if c[0] not in ('VF_WRAP', 'VF_REST'))
@@ -343,16 +346,46 @@ def make_case(rnd):
     return rules, ruleinfo, rules[0][0]
 
 
+SCALARS = [('a', '1'), ('b', 'True'), ('c', '1.0'), ('d', '0'), ('e', 'False'), ('f', '0.0'), ('h', '2')]
+
+
+def make_scalar_case(rnd):
+    """a rule whose value is a bare scalar that varies in type but not in value (1 / True / 1.0 / '1'): the action must
+    receive the AST of this evaluation, whatever equal value it received before"""
+    alts = rnd.sample(SCALARS, rnd.randint(3, 6))
+    v = ('alt', tuple(('seq', (('skipgrp', ('tok', t)), ('const', c))) for t, c in alts))
+    rules = [('start', ('seq', (('star', ('call', 'v')), ('eof',)))), ('v', v)]
+    inputs = [' '.join(rnd.choice(alts)[0] for _ in range(rnd.randint(2, 7))) for _ in range(5)]
+    return rules, {}, 'start', inputs
+
+
+def make_lr_case(rnd):
+    from vf import lrgen
+    spec = lrgen.gen_spec(rnd, shapes=('direct', 'named', 'optpref', 'split'))   # aliased shapes are C03's (finding F-C03-a)
+    rules = lrgen.level_rules(spec)
+    inputs = [lrgen.gen_input(rnd, spec, rnd.choice([3, 5, 7])) for _ in range(5)]
+    return rules, {}, lrgen.start_rule(spec), inputs
+
+
 def run_shard(sh, n):
     def body(rnd):
         reset_tatsu_state()
-        rules, ruleinfo, start = make_case(rnd)
+        r0 = rnd.random()
+        lr = r0 < 0.15
+        if lr:
+            rules, ruleinfo, start, lr_inputs = make_lr_case(rnd)
+            fixed_inputs = None
+        elif r0 < 0.2:
+            rules, ruleinfo, start, fixed_inputs = make_scalar_case(rnd)
+        else:
+            fixed_inputs = None
+            rules, ruleinfo, start = make_case(rnd)
         cache = {}
         history = []
         gtext = grammar_text(rule_dicts(rules, ruleinfo))
         names = [nm for nm, _ in rules]
         try:
-            for text in gen.gen_inputs(rnd, rules, start, 5):
+            for text in (lr_inputs if lr else fixed_inputs if fixed_inputs else gen.gen_inputs(rnd, rules, start, 5)):
                 # a plain reference run to pick predicate targets from
                 plain = Ref(rule_dicts(rules, ruleinfo), text)
                 plain.parse(start)
@@ -370,7 +403,7 @@ def run_shard(sh, n):
                         semd['target'] = list(rnd.choice(cands))
                         if kind == 'raise_on':
                             semd['exc'] = rnd.choice(sorted(EXC))
-                d, info = check(rules, ruleinfo, start, text, semd, cache)
+                d, info = check(rules, ruleinfo, start, text, semd, cache, lr=lr)
                 hist = list(history)
                 history.append((text, semd))
                 if 'model' not in cache:
@@ -379,6 +412,10 @@ def run_shard(sh, n):
                     return
                 nt = info.get('ncalls', 0) > 0 and (semd['kind'] not in ('fail_on', 'raise_on') or info.get('fired'))
                 cls = [f'sem:{semd["kind"]}', f'ref:{info.get("ref")}']
+                if fixed_inputs:
+                    cls.append('scalar-valued rule (1 / True / 1.0)')
+                if lr:
+                    cls.append('left-recursive grammar' + (' + predicate fired' if info.get('fired') else ''))
                 if semd.get('exc'):
                     cls.append(f'exc:{semd["exc"]}')
                 if info.get('fired'):
@@ -393,7 +430,7 @@ def run_shard(sh, n):
                     sh.flag(f)
                 sh.case((gtext, text, canon_key(semd)), nt, cls, sample=dict(grammar=gtext, input=text, semantics=semd))
                 if d is not None:
-                    sh.fail(d['bucket'], dict(rules=rules, ruleinfo=ruleinfo, start=start, input=text, sem=semd, history=hist), d)
+                    sh.fail(d['bucket'], dict(rules=rules, ruleinfo=ruleinfo, start=start, input=text, sem=semd, history=hist, lr=lr), d)
         finally:
             if cache.get('mod') is not None:
                 tu.unload(cache['mod'])
@@ -401,7 +438,7 @@ def run_shard(sh, n):
 
 
 def replay(case):
-    d, _ = check(case['rules'], case.get('ruleinfo') or {}, case['start'], case['input'], case['sem'], history=case.get('history'))
+    d, _ = check(case['rules'], case.get('ruleinfo') or {}, case['start'], case['input'], case['sem'], history=case.get('history'), lr=bool(case.get('lr')))
     return d
 
 
